@@ -1,6 +1,7 @@
 import SqlizeModel.Proofs.SpecTable
 import SqlizeModel.Proofs.SpecJustified
 import SqlizeModel.Proofs.Textual
+import SqlizeModel.Proofs.FkWF
 
 namespace Sqlize
 open Spec
@@ -140,6 +141,57 @@ theorem exec_added_idxs : ∀ (is : List Index) (db : DB) (t : String) (tb : Tab
       rw [hother u hu]
       exact find_replace_other db tb1 u (by rw [hn1, hname]; exact hu)
 
+/-- the ADD CONSTRAINT statements of a created table, executed on the reference engine: the keys are appended in order -/
+theorem exec_added_fks : ∀ (fs : List ForeignKey) (db : DB) (t : String) (tb : TableSpec),
+    (db.map (·.name)).Nodup → db.find t = some tb →
+    (∀ f ∈ fs, f.action = .add) → (fs.map (·.name)).Nodup →
+    (∀ f ∈ fs, tb.fks.any (·.name == f.name) = false) → (∀ f ∈ fs, f.column ∈ tb.colNames) →
+    ∃ db' tb', execAll false db (fs.flatMap (fun f => f.migrationUp t)) = some db' ∧ db'.find t = some tb' ∧
+      tb'.name = tb.name ∧ tb'.cols = tb.cols ∧ tb'.idxs = tb.idxs ∧ tb'.pk = tb.pk ∧ tb'.fks = tb.fks ++ fkSpecOf fs ∧
+      (∀ u, u ≠ t → db'.find u = db.find u) ∧ db'.map (·.name) = db.map (·.name) := by
+  intro fs
+  induction fs with
+  | nil =>
+    intro db t tb _ hf _ _ _ _
+    exact ⟨db, tb, rfl, hf, rfl, rfl, rfl, rfl, by simp [fkSpecOf], fun _ _ => rfl, rfl⟩
+  | cons f rest ih =>
+    intro db t tb hnd hf hadd hndF hfresh hcols
+    rw [List.map_cons, List.nodup_cons] at hndF
+    have ha := hadd f (by simp)
+    have hfr := hfresh f (by simp)
+    have hcol : tb.hasCol f.column = true := (ReaderMysql.hasCol_iff tb f.column).mpr (hcols f (by simp))
+    let tb1 : TableSpec := { tb with fks := tb.fks ++ [f.toSpec] }
+    have he1 : exec false db (.addFk t f.name f.column f.refTable f.refColumn) = some (db.replace tb1) := by
+      simp only [exec, hf, hfr, hcol, Bool.not_true, Bool.or_self, Bool.false_eq_true, if_false, Bool.false_and]
+      rfl
+    obtain ⟨k, hk, hname⟩ := find_getElem db t tb hf
+    obtain ⟨hf1, _, hnames1⟩ := ReaderMysql.find_replace db hnd k tb tb1 hk rfl
+    have hf1 : (db.replace tb1).find t = some tb1 := by rw [← hname]; exact hf1
+    have hnd1 : ((db.replace tb1).map (·.name)).Nodup := by rw [hnames1]; exact hnd
+    obtain ⟨db', tb', he', hf', hn', hc', hi', hp', hk', hother, hnames'⟩ := ih (db.replace tb1) t tb1 hnd1 hf1
+      (fun x hx => hadd x (List.mem_cons_of_mem _ hx)) hndF.2
+      (by
+        intro x hx
+        show (tb.fks ++ [f.toSpec]).any (·.name == x.name) = false
+        rw [List.any_append, hfresh x (List.mem_cons_of_mem _ hx), Bool.false_or]
+        have hne : f.name ≠ x.name := fun e => hndF.1 (e ▸ List.mem_map_of_mem hx)
+        simp [ForeignKey.toSpec, hne])
+      (fun x hx => hcols x (List.mem_cons_of_mem _ hx))
+    refine ⟨db', tb', ?_, hf', hn', hc', hi', hp', ?_, ?_, hnames'.trans hnames1⟩
+    · rw [List.flatMap_cons]
+      have : f.migrationUp t = [.addFk t f.name f.column f.refTable f.refColumn] := by
+        unfold ForeignKey.migrationUp; rw [ha]
+      rw [this]
+      simp only [List.singleton_append, execAll, he1, Option.bind_some]
+      exact he'
+    · rw [hk']
+      show tb.fks ++ [f.toSpec] ++ fkSpecOf rest = tb.fks ++ fkSpecOf (f :: rest)
+      unfold fkSpecOf
+      simp
+    · intro u hu
+      rw [hother u hu]
+      exact find_replace_other db tb1 u (by show u ≠ tb.name; rw [hname]; exact hu)
+
 namespace Table
 
 /-- the index statements of a created table: every live record prints its own statement(s) -/
@@ -168,14 +220,14 @@ end Table
 theorem loaded_table_spec (g : Globals) (hg : g.dialect = .mysql) (rc : Bool)
     (new : List Stmt) (dbN : DB) (hn : new.all Stmt.elemSafe = true) (hpn : new.all Stmt.plainOpts = true)
     (hen : execAll rc [] new = some dbN) (mn : Migration) (hmn' : ReaderMysql.run {} new = .ok mn)
-    (t : String) (tbN : TableSpec) (hfn : dbN.find t = some tbN) (hnofk : tbN.fks = []) :
+    (t : String) (tbN : TableSpec) (hfn : dbN.find t = some tbN) :
     ∃ (i : Nat) (td : Table), mn.tables[i]? = some td ∧ td.name = t ∧ td.action = .add ∧
-      ∃ cs is, td.migrationColumnUp g = .ok (cs, []) ∧ (∀ dc, td.migrationIndexUp g dc = .ok is) ∧
-        (∀ dc, td.migrationForeignKeyUp dc = []) ∧
-        (∀ dbO : DB, dbO.has t = false → ∀ s ∈ cs ++ is, justified dbO dbN s = true) ∧
-        (t ≠ "" → ∀ s ∈ cs ++ is, s.vocab = true) ∧
+      ∃ cs is fs, td.migrationColumnUp g = .ok (cs, []) ∧ (∀ dc, td.migrationIndexUp g dc = .ok is) ∧
+        (∀ dc, td.migrationForeignKeyUp dc = fs) ∧
+        (∀ dbO : DB, dbO.has t = false → ∀ s ∈ cs ++ is ++ fs, justified dbO dbN s = true) ∧
+        (t ≠ "" → ∀ s ∈ cs ++ is ++ fs, s.vocab = true) ∧
         ∀ db : DB, (db.map (·.name)).Nodup → db.has t = false →
-          ∃ db' tb', execAll false db (cs ++ is) = some db' ∧ db'.find t = some tb' ∧ tb'.equiv tbN = true ∧
+          ∃ db' tb', execAll false db (cs ++ is ++ fs) = some db' ∧ db'.find t = some tb' ∧ tb'.equiv tbN = true ∧
             (∀ u, u ≠ t → db'.find u = db.find u) ∧ db'.map (·.name) = db.map (·.name) ++ [t] := by
   have hnc : new.all Stmt.colSafe = true :=
     List.all_eq_true.mpr (fun s hs => Stmt.colSafe_of_elemSafe s (List.all_eq_true.mp hn s hs))
@@ -198,10 +250,8 @@ theorem loaded_table_spec (g : Globals) (hg : g.dialect = .mysql) (rc : Bool)
   obtain ⟨hlive, _⟩ := hxn.fresh _ (List.mem_of_getElem? hrawn)
   have hlive : ∀ i ∈ td.idxs, i.Live := hlive
   have hpkv : pkOf td.idxs = tbN.pk := hkn.at_ hrawn hdn
-  have hfks : td.fks = [] := by
-    have : fkSpecOf td.fks = [] := by rw [hvf, hnofk]
-    unfold fkSpecOf at this
-    exact List.map_eq_nil_iff.mp this
+  obtain ⟨_, hfkadd⟩ := hxn.fresh _ (List.mem_of_getElem? hrawn)
+  have hfkadd : ∀ f ∈ td.fks, f.action = .add := hfkadd
   -- what is printed
   have hprinted : td.cols.filter (fun c => c.action == .add || c.action == .modify || c.action == .rename) = td.cols := by
     apply List.filter_eq_self.mpr
@@ -223,10 +273,15 @@ theorem loaded_table_spec (g : Globals) (hg : g.dialect = .mysql) (rc : Bool)
     unfold Table.migrationIndexUp
     rw [hact, hnmn]
     exact Table.addedIdx_pure g t td.idxs hlive
-  have hfs : ∀ dc, td.migrationForeignKeyUp dc = [] := by
+  have hfs : ∀ dc, td.migrationForeignKeyUp dc = td.fks.flatMap (fun f => f.migrationUp t) := by
     intro dc
     unfold Table.migrationForeignKeyUp
-    rw [hact, hfks]; rfl
+    rw [hact, hnmn]
+    simp only
+    apply Table.flatMap_congr'
+    intro f hf
+    have : (f.action == .add) = true := by rw [hfkadd f hf]; rfl
+    rw [if_pos this]
   rw [hnmn] at hcs
   have hwfN : tbN.WF := execAll_wf rc new [] dbN hnc wf_empty hen tbN (mem_of_find hfn)
   have hndI : (td.idxs.map (·.name)).Nodup := hi_n.idxs.nodup
@@ -314,7 +369,41 @@ theorem loaded_table_spec (g : Globals) (hg : g.dialect = .mysql) (rc : Bool)
         have hp' : (i.name != pkName) = true := by simpa using hp
         rw [List.mem_singleton.mp hsi]
         simp [Stmt.vocab, Stmt.elemSafe, ht', hp', Stmt.textual, Stmt.plainOpts]
-  refine ⟨i, td, hmn, hnmn, hact, _, _, hcs, his, hfs, hjust, hvocab, ?_⟩
+  -- the key statements: one ADD CONSTRAINT per key record
+  have hfkshape : ∀ s ∈ td.fks.flatMap (fun f => f.migrationUp t), ∃ f ∈ td.fks,
+      s = .addFk t f.name f.column f.refTable f.refColumn := by
+    intro s hs
+    obtain ⟨f, hf, hsf⟩ := List.mem_flatMap.mp hs
+    unfold ForeignKey.migrationUp at hsf
+    rw [hfkadd f hf] at hsf
+    exact ⟨f, hf, List.mem_singleton.mp hsf⟩
+  have hndF : (td.fks.map (·.name)).Nodup := hi_n.fks.nodup
+  have hndFS : (tbN.fks.map (·.name)).Nodup := by
+    rw [← hvf, fkSpecOf_names]; exact hndF
+  have hjustFk : ∀ dbO : DB, dbO.has t = false → ∀ s ∈ td.fks.flatMap (fun f => f.migrationUp t), justified dbO dbN s = true := by
+    intro dbO hnew s hs
+    obtain ⟨f, hf, rfl⟩ := hfkshape s hs
+    have hfoNone : dbO.find t = none := by
+      cases hfo : dbO.find t with
+      | none => rfl
+      | some x =>
+        have := (has_iff dbO t).mpr (by rw [← find_name' dbO t x hfo]; exact List.mem_map_of_mem (mem_of_find hfo))
+        rw [hnew] at this; cases this
+    show (dbO.fk t f.name != dbN.fk t f.name) = true
+    have h1 : dbO.fk t f.name = none := by unfold DB.fk; rw [hfoNone]; rfl
+    have hm : f.toSpec ∈ tbN.fks := by rw [← hvf]; exact List.mem_map_of_mem hf
+    have h2 : dbN.fk t f.name = some f.toSpec := by
+      unfold DB.fk; rw [hfn]
+      exact find?_of_mem_nodup (fun x : FkSpec => x.name) tbN.fks f.toSpec hndFS hm
+    rw [h1, h2]; rfl
+  have hvocabFk : t ≠ "" → ∀ s ∈ td.fks.flatMap (fun f => f.migrationUp t), s.vocab = true := by
+    intro ht s hs
+    obtain ⟨f, _, rfl⟩ := hfkshape s hs
+    have ht' : (t != "") = true := by simpa using ht
+    simp [Stmt.vocab, Stmt.elemSafe, Stmt.colSafe, Stmt.table, ht', Stmt.textual, Stmt.plainOpts]
+  refine ⟨i, td, hmn, hnmn, hact, _, _, _, hcs, his, hfs,
+    (fun dbO hnew s hs => (List.mem_append.mp hs).elim (hjust dbO hnew s) (hjustFk dbO hnew s)),
+    (fun ht s hs => (List.mem_append.mp hs).elim (hvocab ht s) (hvocabFk ht s)), ?_⟩
   intro db hnd hnot
   -- CREATE TABLE
   have hplain := (hpln td hmemn).opts
@@ -390,12 +479,31 @@ theorem loaded_table_spec (g : Globals) (hg : g.dialect = .mysql) (rc : Bool)
             rw [hp] at this; exact this
           rw [hfind]; rfl
         rw [← this, hpkv]; exact hpkN.2)
-  refine ⟨db', tb', ?_, hf', ?_, ?_, ?_⟩
-  · rw [List.singleton_append, execAll, hcreate]
-    exact he'
+  -- the foreign keys
+  have hfkwf : tbN.FkWF := execAll_fkwf rc new [] dbN hnc fkwf_empty hen tbN (mem_of_find hfn)
+  have hndD' : (db'.map (·.name)).Nodup := by
+    rw [hnames']; exact hnd0
+  obtain ⟨db2, tb2, he2, hf2, hn2, hc2, hi2, hp2, hk2, hother2, hnames2⟩ :=
+    exec_added_fks td.fks db' t tb' hndD' hf' hfkadd hndF
+      (by intro f _; rw [hfk']; rfl)
+      (by
+        intro f hf
+        show f.column ∈ tb'.cols.map (·.name)
+        rw [hc']
+        show f.column ∈ C.map (·.name)
+        rw [hCnames]
+        have hm : f.toSpec ∈ tbN.fks := by rw [← hvf]; exact List.mem_map_of_mem hf
+        exact hfkwf _ hm)
+  refine ⟨db2, tb2, ?_, hf2, ?_, ?_, ?_⟩
+  · rw [execAll_append, List.singleton_append]
+    have : execAll false db (Stmt.createTable t
+        ((td.cols.foldl (fun m c => max m c.name.utf8ByteSize) (((td.cols[0]?).map (·.name.utf8ByteSize)).getD 0)))
+        (td.cols.map (fun c => c.colDef false)) [] :: td.idxs.flatMap (fun i => i.upStmts t)) = some db' := by
+      rw [execAll, hcreate]; exact he'
+    rw [this]; exact he2
   · -- the table equals the new side's
-    have hcols : colsEquiv tb'.cols tbN.cols = true := by
-      rw [hc']
+    have hcols : colsEquiv tb2.cols tbN.cols = true := by
+      rw [hc2, hc']
       refine colsEquiv_of C tbN.cols hCnames hndN ?_
       intro x hx y hy hxy
       obtain ⟨cd, hcd, rfl⟩ := List.mem_map.mp hx
@@ -408,9 +516,9 @@ theorem loaded_table_spec (g : Globals) (hg : g.dialect = .mysql) (rc : Bool)
         unfold Attr.typeText; rw [hcst]; rfl
       · show (optsOf c.cur.opts).1.Perm cs.opts
         rw [Table.optsOf_fst]; exact hcso
-    have hidx : tb'.idxs = tbN.idxs := by rw [hi', hvi]; rfl
-    have hpk : tb'.pk = tbN.pk := by
-      rw [hp', ← hpkv]
+    have hidx : tb2.idxs = tbN.idxs := by rw [hi2, hi', hvi]; rfl
+    have hpk : tb2.pk = tbN.pk := by
+      rw [hp2, hp', ← hpkv]
       by_cases ha : td.idxs.any (·.name == pkName) = true
       · rw [if_pos ha]
       · rw [if_neg ha]
@@ -423,11 +531,12 @@ theorem loaded_table_spec (g : Globals) (hg : g.dialect = .mysql) (rc : Bool)
     have hnameN : tbN.name = t := by
       obtain ⟨_, _, hn0⟩ := find_getElem dbN t tbN hfn
       exact hn0
+    have hfkeq : tb2.fks = tbN.fks := by rw [hk2, hfk', hvf]; rfl
     unfold TableSpec.equiv
-    rw [hn', hcols, hpk, hidx, hfk', hnofk]
-    simp [tb0, hnameN, perm_permEq tbN.idxs tbN.idxs (List.Perm.refl _), permEq]
+    rw [hn2, hn', hcols, hpk, hidx, hfkeq]
+    simp [tb0, hnameN, perm_permEq tbN.idxs tbN.idxs (List.Perm.refl _), perm_permEq tbN.fks tbN.fks (List.Perm.refl _)]
   · intro u hu
-    rw [hother u hu]
+    rw [hother2 u hu, hother u hu]
     unfold DB.find
     rw [List.find?_append]
     cases hfu : List.find? (fun x => x.name == u) db with
@@ -438,7 +547,7 @@ theorem loaded_table_spec (g : Globals) (hg : g.dialect = .mysql) (rc : Bool)
         show (t == u) = false
         simpa using (Ne.symm hu)
       simp [List.find?_cons, this]
-  · rw [hnames', List.map_append, List.map_singleton]
+  · rw [hnames2, hnames', List.map_append, List.map_singleton]
 
 
 /-- **C01, a table only the new side has, on the reference engine.**  For a table the new script declares and the old one
@@ -451,13 +560,13 @@ theorem created_table_spec (g : Globals) (hg : g.dialect = .mysql) (rc : Bool)
     (hpo : old.all Stmt.plainOpts = true) (hpn : new.all Stmt.plainOpts = true)
     (heo : execAll rc [] old = some dbO) (hen : execAll rc [] new = some dbN)
     (d : Migration) (hd : loadAndDiff g old new = .ok d)
-    (t : String) (tbN : TableSpec) (hfn : dbN.find t = some tbN) (hnew : dbO.has t = false) (hnofk : tbN.fks = []) :
+    (t : String) (tbN : TableSpec) (hfn : dbN.find t = some tbN) (hnew : dbO.has t = false) :
     ∃ td ∈ d.tables, td.name = t ∧ td.action = .add ∧
-      ∃ cs is, td.migrationColumnUp g = .ok (cs, []) ∧ td.migrationIndexUp g [] = .ok is ∧
-        td.migrationForeignKeyUp [] = [] ∧ (∀ s ∈ cs ++ is, justified dbO dbN s = true) ∧
-        (t ≠ "" → ∀ s ∈ cs ++ is, s.vocab = true) ∧
+      ∃ cs is fs, td.migrationColumnUp g = .ok (cs, []) ∧ td.migrationIndexUp g [] = .ok is ∧
+        td.migrationForeignKeyUp [] = fs ∧ (∀ s ∈ cs ++ is ++ fs, justified dbO dbN s = true) ∧
+        (t ≠ "" → ∀ s ∈ cs ++ is ++ fs, s.vocab = true) ∧
         ∀ db : DB, (db.map (·.name)).Nodup → db.has t = false →
-          ∃ db' tb', execAll false db (cs ++ is) = some db' ∧ db'.find t = some tb' ∧ tb'.equiv tbN = true ∧
+          ∃ db' tb', execAll false db (cs ++ is ++ fs) = some db' ∧ db'.find t = some tb' ∧ tb'.equiv tbN = true ∧
             (∀ u, u ≠ t → db'.find u = db.find u) ∧ db'.map (·.name) = db.map (·.name) ++ [t] := by
   have hoc : old.all Stmt.colSafe = true :=
     List.all_eq_true.mpr (fun s hs => Stmt.colSafe_of_elemSafe s (List.all_eq_true.mp ho s hs))
@@ -476,8 +585,8 @@ theorem created_table_spec (g : Globals) (hg : g.dialect = .mysql) (rc : Bool)
     have : readScript g {} new = .ok mn := by unfold readScript; rw [hg]; exact hmn'
     rw [this] at hln; exact Except.ok.inj hln
   subst this
-  obtain ⟨i, td, hmn, hnmn, hact, cs, is, hcs, his, hfs, hjust, hvoc, hrun⟩ :=
-    loaded_table_spec g hg rc new dbN hn hpn hen mn hmn' t tbN hfn hnofk
+  obtain ⟨i, td, hmn, hnmn, hact, cs, is, fs, hcs, his, hfs, hjust, hvoc, hrun⟩ :=
+    loaded_table_spec g hg rc new dbN hn hpn hen mn hmn' t tbN hfn
   have hgo : mo.tblIdx.get? t = none := hro.unknown hnew
   unfold Migration.diff at hd
   obtain ⟨ts, h1, hd⟩ := bind_ok hd
@@ -488,6 +597,6 @@ theorem created_table_spec (g : Globals) (hg : g.dialect = .mysql) (rc : Bool)
   obtain ⟨extra, hext⟩ := Migration.diffTables2_prefix mo.tables _ d hd
   have htd_mem : td' ∈ d.tables := by
     rw [hext]; exact List.mem_append_left _ (List.mem_of_getElem? htd)
-  exact ⟨td', htd_mem, hnmn, hact, cs, is, hcs, his [], hfs [], hjust dbO hnew, hvoc, hrun⟩
+  exact ⟨td', htd_mem, hnmn, hact, cs, is, fs, hcs, his [], hfs [], hjust dbO hnew, hvoc, hrun⟩
 
 end Sqlize
